@@ -345,13 +345,14 @@ func vf08RefECH(e *GREASEEncryptedClientHelloExtension) *vf08Ref {
 	ids := append([]uint8(nil), e.CandidateConfigIds...)
 	enc := append([]byte(nil), e.EncapsulatedKey...)
 	plens := append([]uint16(nil), e.CandidatePayloadLens...)
-	for _, p := range plens {
-		if int(p)+16 > 0xffff || 1+4+1+2+len(enc)+2+int(p)+16 > 0xffff {
+	encLen := len(enc)
+	if encLen == 0 {
+		encLen = 32 // generated
+	}
+	for _, p := range append([]uint16{128}, plens...) {
+		if int(p)+16 > 0xffff || 1+4+1+2+encLen+2+int(p)+16 > 0xffff {
 			return &vf08Ref{over: true}
 		}
-	}
-	if 1+4+1+2+len(enc)+2+128+16 > 0xffff {
-		return &vf08Ref{over: true}
 	}
 	return &vf08Ref{match: func(got []byte) string {
 		w, msg := vf08ParseECH(got)
@@ -1121,7 +1122,11 @@ var vf08Gens = []vf08Gen{
 			e.EncapsulatedKey = vf08Bytes(t, "encv", encLen)
 		}
 		np := rapid.IntRange(0, 3).Draw(t, "np")
-		maxp := 65535 - (1 + 4 + 1 + 2 + encLen + 2) - 16
+		effEnc := encLen
+		if effEnc == 0 {
+			effEnc = 32 // the library generates an X25519 encapsulated key
+		}
+		maxp := 65535 - (1 + 4 + 1 + 2 + effEnc + 2) - 16
 		for i := 0; i < np; i++ {
 			p := vf08Size(t, fmt.Sprintf("p%d", i), 0, maxp)
 			e.CandidatePayloadLens = append(e.CandidatePayloadLens, uint16(p))
@@ -1410,10 +1415,12 @@ func TestVerifC08TypeListComplete(t *testing.T) {
 	if len(found) == 0 {
 		vf08Inconclusive(st, "could not read the extension type list from "+repo)
 	}
+	// placeholders without behaviour of their own, and the unexported ALPS core both ALPS types embed
 	known := map[string]bool{"UnimplementedECHExtension": true, "UnimplementedPreSharedKeyExtension": true, "applicationSettingsExtension": true}
 	for _, g := range vf08Gens {
 		known[g.name] = true
 	}
+	found["ApplicationSettingsExtension"], found["ApplicationSettingsExtensionNew"] = found["applicationSettingsExtension"], found["applicationSettingsExtension"]
 	var missing, gone []string
 	for n := range found {
 		if !known[n] {
